@@ -306,7 +306,28 @@ def check_case(kind, case):
     return out
 
 
+BINOPS = ['+', '-', '*', 'div', 'idiv', 'mod', '=', '!=', '<', '<=', '>', '>=', 'eq', 'ne', 'lt', 'le', 'gt', 'ge', 'and', 'or',
+          'to', '|', 'union', 'intersect', 'except', '||', 'is', '<<', '>>', ',', '!', '=>']
+OPERAND_POOL = ARG_POOL + ['0.0', '5.0', '-2.5', '0e0', '-0e0', 'xs:decimal("0")', 'xs:float("0")', '$i', '$q', '$s', '()', '.',
+                           '1 to 3', '(1, "a")', 'xs:integer("0")']
+
+
+def g_binop(r):
+    op = r.choice(BINOPS)
+    a, b = r.choice(OPERAND_POOL), r.choice(OPERAND_POOL)
+    if op == '=>':
+        return '%s => %s(%s)' % (a, r.choice(['string', 'count', 'abs', 'upper-case', 'sum', 'concat']), b if r.random() < 0.3 else '')
+    x = r.random()
+    if x < 0.15:
+        return '%s %s %s %s %s' % (a, op, b, r.choice(BINOPS[:20]), r.choice(OPERAND_POOL))
+    if x < 0.25:
+        return '-%s %s +%s' % (a, op, b)
+    return '%s %s %s' % (a, op, b)
+
+
 def g_source(r):
+    if r.random() < 0.18:
+        return g_binop(r), 'ill-typed-operator'
     x = r.random()
     if x < 0.08:
         return r.choice(SEEDS), 'seed'
@@ -332,7 +353,15 @@ def run(h):
     if h.shard == 0:
         for s in SEEDS:
             corpus.append((s, 'seed'))
-    for _ in range(h.n(22000)):
+    if h.shard == 0:
+        # every arithmetic operator over a small numeric boundary pool (zeros of every type, NaN, INF, huge)
+        nums = ['0', '1', '-3', '0.0', '5.0', '-2.5', '0e0', '-0e0', '1.5e0', 'xs:float("0")', 'xs:float("2.5")', 'xs:double("NaN")',
+                'xs:double("INF")', 'xs:decimal("0")', '99999999999999999999', 'xs:untypedAtomic("0")', 'xs:untypedAtomic("x")', '()']
+        for op in ('+', '-', '*', 'div', 'idiv', 'mod'):
+            for a in nums:
+                for b in nums:
+                    corpus.append(('%s %s %s' % (a, op, b), 'ill-typed-operator'))
+    for _ in range(h.n(11000)):
         corpus.append(g_source(fr))
     if h.tier == 'thorough':
         # the whole ill-typed call matrix, split over the shards
@@ -343,7 +372,7 @@ def run(h):
     for s, origin in corpus:
         h.case('source', {'src': s, 'origin': origin})
     r = h.rng
-    for _ in range(h.n(120)):
+    for _ in range(h.n(80)):
         ver = r.choice(VERSIONS)
         sources = [r.choice(corpus)[0] for _ in range(r.randint(30, 80))]
         h.case('history', {'ver': ver, 'sources': sources}, cpu=60)
@@ -379,7 +408,7 @@ def floors(v):
         reasons.append('fewer than 3000 evaluations classified')
     if v.got('history_parses') < 1500:
         reasons.append('fewer than 1500 history parses compared with a fresh parser')
-    for o in ('mutation', 'random', 'ill-typed-call'):
+    for o in ('mutation', 'random', 'ill-typed-call', 'ill-typed-operator'):
         if v.got('origin', o) < 100:
             reasons.append('fewer than 100 %s sources' % o)
     return reasons
